@@ -22,11 +22,17 @@ def run(ctx):
     def bad(what, inp, obs):
         ctx.violations.append(dict(what=what, key=what, input=inp, observed=obs))
 
+    k4_known = [e for e in core.known_findings(ID) if e["status"] == "known" and e.get("key") == "inplace-first-step"]
+    k4_hits = []
     tables = [("ideal-gas (consistent)", rescorr.synth_table("ideal", 400), 0.0), ("liquid (consistent)", rescorr.synth_table("liquid", 400), 0.0),
               ("shipped gas", rescorr.shipped_gas(stride=4), None)]
     if not ctx.quick:
-        tables.append(("haynesville", rescorr.shipped_haynesville(stride=6), None))
+        tables.append(("haynesville", rescorr.shipped_haynesville(stride=6, consistent_only=True), None))
+    # rows listed by decreasing pressure (as lab reports are) must give the same recoveries: every lookup of the library sorts
+    # (ideal gas: density is NOT linear in pseudopressure, so a lookup that mis-handles the row order cannot hide)
+    tables.append(("ideal-gas (consistent), rows by decreasing pressure", rescorr.synth_table("ideal", 400), 0.0))
     for tname, tb, incons in tables:
+        rev = "decreasing" in tname
         p = tb["pressure"]
         if incons is None:
             # the table's own measurable inconsistency: c vs d ln(rho)/dp and m vs int 2p/(mu z)
@@ -35,8 +41,10 @@ def run(ctx):
             m2 = np.concatenate([[0.0], np.cumsum(np.diff(p) * (f[1:] + f[:-1]) / 2)])
             dm = np.diff(tb["pseudopressure"]) / np.maximum(np.diff(m2), 1e-300)
             incons = float(np.median(np.abs(tb["compressibility"][2:-2] / dln[2:-2] - 1)) + np.median(np.abs(dm[2:-2] - 1)))
-        for sched_kind in ("constant", "stepdown", "arbitrary", "chokeback"):
+        for sched_kind in (("constant", "stepdown") if rev else ("constant", "stepdown", "arbitrary", "chokeback")):
             ratios = (0.1, 0.99) if ctx.quick else (0.05, 0.5, 0.9, 0.99, 0.99875)
+            if rev:
+                ratios = ratios[:2]
             for ratio in ratios:
                 pi = float(p[-2])
                 pf = max(pi * ratio, float(p[1]))
@@ -45,6 +53,8 @@ def run(ctx):
                     nt = 4 * nx * nx // 25 + 10
                     t = np.linspace(0, np.sqrt(0.8), nt) ** 2
                     c = dict(kind="single", table=tb, pi=pi, pf=pf, nx=nx, times=t)
+                    if rev:
+                        c["reverse_rows"] = True
                     if sched_kind == "stepdown":
                         c["sched"] = list(np.where(t < 0.2, pf + 0.5 * (pi - pf), np.where(t < 0.5, pf + 0.25 * (pi - pf), pf)))
                     elif sched_kind == "arbitrary":
@@ -65,8 +75,16 @@ def run(ctx):
                     if sched_kind in ("constant", "stepdown"):
                         tol = 1e-8 * scale  # linear-solver level, not discretisation
                         if np.any(np.diff(rf) < -tol) or np.any(np.diff(rfd) < -tol):
-                            bad("recovery decreases in time although frac-face pressure does not rise", inp,
-                                dict(min_step_flux=float(np.diff(rf).min()), min_step_inplace=float(np.diff(rfd).min())))
+                            # known finding K4: the in-place recovery dips over the first step only, node 0 alone rising in it
+                            fld = im["field"]
+                            k4 = (not np.any(np.diff(rf) < -tol) and not np.any(np.diff(rfd)[1:] < -tol)
+                                  and list(np.nonzero(fld[1] - fld[0] > 0)[0]) == [0])
+                            if k4 and k4_known:
+                                k4_hits.append(float(np.diff(rfd)[0]))
+                            else:
+                                bad("recovery decreases in time although frac-face pressure does not rise", inp,
+                                    dict(min_step_flux=float(np.diff(rf).min()), min_step_inplace=float(np.diff(rfd).min()),
+                                         first_bad_step=int(np.argmax((np.diff(rf) < -tol) | (np.diff(rfd) < -tol)))))
                     sched = np.asarray(c.get("sched", [pf] * nt), float)
                     rho = interp1d(p, tb["density"])
                     ceil = 1 - float(rho(sched.min())) / float(rho(pi))
@@ -96,6 +114,17 @@ def run(ctx):
         report.append(dict(ideal_plateau_over_expected=plat, ratio=ratio))
         if abs(plat[0] - 1) > 1.5 / nxs[0] or any(abs(b - 1) > 0.75 * abs(a - 1) + 1e-6 for a, b in zip(plat, plat[1:])):
             bad("ideal-gas recovery does not plateau at 1 - p_frac/p_initial (to first order, shrinking under refinement)", dict(ratio=ratio, nx_ladder=list(nxs)), plat)
+    # K4 is printed only while its recorded witness still reproduces on the implementation
+    if k4_known:
+        tbw = rescorr.shipped_gas(stride=4)
+        pw = tbw["pressure"]
+        tw = np.concatenate([[0.0], 1e-6 * np.cumsum(1.5 ** np.arange(12))])
+        imw = rescorr.run_impl(dict(kind="single", table=tbw, pi=float(pw[-2]), pf=max(float(pw[-2]) * 0.05, float(pw[1])), nx=20, times=tw))
+        if "rfd" in imw and imw["rfd"][1] < 0 and np.all(np.diff(imw["rfd"])[1:] >= 0):
+            ctx.known_printed.append(k4_known[0]["line"])
+            ctx.notes.append(f"known finding K4 reproduced on its witness (dip {imw['rfd'][1]:.3g}); {len(k4_hits)} sampled runs showed it, largest {min(k4_hits) if k4_hits else 0:.3g}")
+        elif k4_hits:
+            bad("recovery decreases in time although frac-face pressure does not rise", dict(note="first-step dips seen although the recorded witness no longer reproduces"), k4_hits[:5])
     ctx.cov.update(evaluations=ev, distinct_nontrivial=len(report), ladders=report[:40],
                    rule="thermodynamically consistent synthetic tables (ideal gas, constant-compressibility liquid) exactly; shipped tables widened by their "
                         "own measured inconsistency (median |c/(d ln rho/dp) - 1| + median |dm/d(int 2p/(mu z)) - 1|); constant / step-down / arbitrary "
